@@ -19,11 +19,11 @@ def run(ctx):
                    'against what the first attempt tested (sentinels are never overwritten by a retry)', minimum=6)
     tot = 0
     for cfg, fb in sorted(fbs.items()):
-        lib_order.check_cas_fresh(ctx, fb, rcf)
-        lib_core.check_undefined_inline(ctx, fb, rodr)
+        ctx.guard(lambda: lib_order.check_cas_fresh(ctx, fb, rcf))
+        ctx.guard(lambda: lib_core.check_undefined_inline(ctx, fb, rodr))
         words = lib_order.WORDS.keys()
         if cfg == 'K17':
             words = [w for w in words if 'Mutex' not in w and 'Spinlock' not in w]
         tot += lib_order.check(ctx, fb, cfg, words, rw, ro, rc)
-        lib_order.check_counter_reads(ctx, fb, ro)
-        lib_order.check_relaxed_decisions(ctx, fb, ro)
+        ctx.guard(lambda: lib_order.check_counter_reads(ctx, fb, ro))
+        ctx.guard(lambda: lib_order.check_relaxed_decisions(ctx, fb, ro))
